@@ -26,13 +26,21 @@ def run(ctx):
                 "test followed by a small tag of another type (and, up to 4160 / 12352 bytes, also preceded by one), all 4 "
                 "flag combinations up to 300 bytes, type/timestamp/flags rotating with the size; same replay as the files. "
                 "MC sweep: every body size 0..20 in all interleavings; two scratch-buffer deviations (wrong for 4 sizes "
-                "only) must be reported. GEN schedules: seeded random walks of the state machine "
+                "only) must be reported. Caller's memory: in the model and in every replay (files, sweep, schedules) the bodies handed to "
+                "WriteTag are adjacent windows (len < cap) of ONE buffer holding all bodies of the file; expectations come from a "
+                "snapshot taken before, and after every WriteTag the caller's memory must equal it (InputsUntouched). "
+                "End of stream: every demux replay runs under whole / 1-byte / random segmentation, each with io.EOF as a Read "
+                "of its own and with io.EOF delivered together with the last bytes (model: DeliverFinal, NoLoss; schedules "
+                "contain such deliveries). GEN schedules: seeded random walks of the state machine "
                 "(<= 5 tags), each step replayed against the library.")
     ctx.exhaustive = True
     ctx.assumptions += [
         "tag bodies are a position dependent byte pattern (per-tag id), not all byte strings",
         "the writer side is an io.Writer that accepts every write completely; failing or short writes/reads are C08",
-        "read segmentations: whole, 1 byte per Read, seeded random sizes 1..128 KiB (files), model-chosen segments (schedules)",
+        "read segmentations: whole, 1 byte per Read, seeded random sizes 1..128 KiB (files), model-chosen segments (schedules); each "
+        "with end-of-stream reported by a Read of its own and by the Read that hands out the last byte; readers that fail are C08",
+        "caller memory: all bodies of a file adjacent in one buffer in file order (a body's spare capacity = the later bodies; the "
+        "last body has cap == len); other layouts (gaps, reverse order, bodies shared between tags) are not generated",
         "after the last tag the demuxer must return an EOF-class error (io.EOF / io.ErrUnexpectedEOF) and no tag",
         "dense size sweep up to 12352 (quick) / 70000 (thorough) bytes only: an implementation boundary above it is seen only if it "
         "coincides with a matrix value (65535, 65536, 2^24-1) or a random size of the thorough simulation (<= 200000)",
@@ -42,36 +50,53 @@ def run(ctx):
     ]
     sub = "flv"
     ctx.sany(sub, "FlvFile")
+    _tlc = ctx.tlc
+
+    def tlc(*a, **kw):
+        kw.setdefault("jopts", ["-Xmx3g"])   # shared machine: every JVM gets a heap cap
+        return _tlc(*a, **kw)
 
     # MC: the property on the specification itself, all interleavings within small constants
-    ctx.tlc(sub, "MC_FlvFile", "MC_FlvFile.cfg" if quick else "MC_FlvFile_thorough.cfg",
+    tlc(sub, "MC_FlvFile", "MC_FlvFile.cfg" if quick else "MC_FlvFile_thorough.cfg",
             coverage=not quick, timeout=800)
     # non-vacuity: named deviations must be rejected by the layout / reference-decoder invariants ...
-    ctx.tlc(sub, "MC_FlvFile", "MC_FlvFile_pts.cfg", expect_violation="RefDec", count_states=False)
-    ctx.tlc(sub, "MC_FlvFile", "MC_FlvFile_tsext.cfg", expect_violation="Layout", count_states=False)
+    tlc(sub, "MC_FlvFile", "MC_FlvFile_pts.cfg", expect_violation="RefDec", count_states=False)
+    tlc(sub, "MC_FlvFile", "MC_FlvFile_tsext.cfg", expect_violation="Layout", count_states=False)
     # ... although the round trip through the model's own demuxer is blind to them (these runs must pass)
-    ctx.tlc(sub, "MC_FlvFile", "MC_FlvFile_blind.cfg", count_states=False)
-    ctx.tlc(sub, "MC_FlvFile", "MC_FlvFile_blind_pts.cfg", count_states=False)
+    tlc(sub, "MC_FlvFile", "MC_FlvFile_blind.cfg", count_states=False)
+    tlc(sub, "MC_FlvFile", "MC_FlvFile_blind_pts.cfg", count_states=False)
     # the size sweep at model scale: every body size 0..20 (two-tag files), all interleavings ...
-    ctx.tlc(sub, "MC_FlvFile", "MC_FlvFile_sweep.cfg" if quick else "MC_FlvFile_sweep_thorough.cfg", timeout=800)
+    tlc(sub, "MC_FlvFile", "MC_FlvFile_sweep.cfg" if quick else "MC_FlvFile_sweep_thorough.cfg", timeout=800)
     # ... non-vacuity: an implementation boundary (fast path through a 16-byte scratch whose guard forgets the 4 bytes of
     # PreviousTagSize; wrong for 4 consecutive sizes only) in the muxer / in the demuxer must be reported ...
-    ctx.tlc(sub, "MC_FlvFile", "MC_FlvFile_muxscratch.cfg", expect_violation="Layout", count_states=False)
-    ctx.tlc(sub, "MC_FlvFile", "MC_FlvFile_demuxscratch.cfg", expect_violation="Framing", count_states=False)
+    tlc(sub, "MC_FlvFile", "MC_FlvFile_muxscratch.cfg", expect_violation="Layout", count_states=False)
+    tlc(sub, "MC_FlvFile", "MC_FlvFile_demuxscratch.cfg", expect_violation="Framing", count_states=False)
+    # the caller's memory (bodies = adjacent windows of one buffer) and the way end-of-stream is signalled are the
+    # caller's choice. Non-vacuity: PreviousTagSize appended in place to the caller's slice -> InputsUntouched; a read loop
+    # that looks at the error before the byte count, end-of-stream delivered with the last bytes -> NoLoss ...
+    tlc(sub, "MC_FlvFile", "MC_FlvFile_appendinplace.cfg", expect_violation="InputsUntouched", count_states=False)
+    tlc(sub, "MC_FlvFile", "MC_FlvFile_errbeforen.cfg", expect_violation="NoLoss", count_states=False)
+    if not quick:
+        # ... the later tag is then written corrupted (Layout) ...
+        tlc(sub, "MC_FlvFile", "MC_FlvFile_appendinplace_layout.cfg", expect_violation="Layout", count_states=False)
+        # ... and both are invisible with bodies that have nothing behind them / with end-of-stream as a Read of its own
+        # (these runs must pass): hence adjacent bodies and the data+EOF segmentations in every replay
+        tlc(sub, "MC_FlvFile", "MC_FlvFile_blind_own.cfg", count_states=False)
+        tlc(sub, "MC_FlvFile", "MC_FlvFile_blind_eof.cfg", count_states=False)
     if not quick:
         # ... and is invisible on every size outside its window (these runs must pass): hence EVERY size is generated
-        ctx.tlc(sub, "MC_FlvFile", "MC_FlvFile_sweep_outside_mux.cfg", count_states=False)
-        ctx.tlc(sub, "MC_FlvFile", "MC_FlvFile_sweep_outside_demux.cfg", count_states=False)
+        tlc(sub, "MC_FlvFile", "MC_FlvFile_sweep_outside_mux.cfg", count_states=False)
+        tlc(sub, "MC_FlvFile", "MC_FlvFile_sweep_outside_demux.cfg", count_states=False)
 
     # GEN 1: whole files (value matrix) with the specification's bytes
     files = os.path.join(ctx.out, "files.ndjson")
-    g = ctx.tlc(sub, "Gen_FlvFile", "Gen_FlvFile.%s.cfg" % ctx.tier, cases_to=files, timeout=600)
+    g = tlc(sub, "Gen_FlvFile", "Gen_FlvFile.%s.cfg" % ctx.tier, cases_to=files, timeout=600)
     want = 2742 if quick else 10559
     if g["cases"] != want:
         raise vlib.Broken("Gen_FlvFile emitted %d files, expected %d" % (g["cases"], want))
     if not quick:
         # random 6-tag files over the unfactored product (TLC simulation, seeded): num is per worker
-        s = ctx.tlc(sub, "Gen_FlvFile", "Gen_FlvFile.sim.cfg", cases_to=files, simulate=400, depth=8, timeout=600)
+        s = tlc(sub, "Gen_FlvFile", "Gen_FlvFile.sim.cfg", cases_to=files, simulate=400, depth=8, timeout=600)
         if s["cases"] < 400:
             raise vlib.Broken("Gen_FlvFile simulation emitted only %d files" % s["cases"])
     res = ctx.replay("flvfile", files)
@@ -85,7 +110,7 @@ def run(ctx):
     want = sum((2 if n <= k["Sweep3Max"] else 1) * (4 if n <= k["DenseMax"] else 1) for n in sizes)
     if k["SweepMin"] != 0 or k["SweepMax"] < (3 * 4096 + 64 if quick else 70000):
         raise vlib.Broken("Gen_FlvSweep: the sweep must cover every body size 0..%d" % (3 * 4096 + 64 if quick else 70000))
-    gs = ctx.tlc(sub, "Gen_FlvSweep", cfg, cases_to=sweep, timeout=600)
+    gs = tlc(sub, "Gen_FlvSweep", cfg, cases_to=sweep, timeout=600)
     if gs["cases"] != want:
         raise vlib.Broken("Gen_FlvSweep emitted %d files, expected %d" % (gs["cases"], want))
     seen = set()
@@ -102,7 +127,7 @@ def run(ctx):
     # GEN 2: behaviours of the call-level state machine (TLC simulation, seeded), replayed step by step
     sched = os.path.join(ctx.out, "sched.ndjson")
     n = 60 if quick else 1500
-    s = ctx.tlc(sub, "Gen_FlvSched", "Gen_FlvSched.%s.cfg" % ctx.tier, cases_to=sched, simulate=n, depth=600, timeout=600)
+    s = tlc(sub, "Gen_FlvSched", "Gen_FlvSched.%s.cfg" % ctx.tier, cases_to=sched, simulate=n, depth=600, timeout=600)
     if s["cases"] < n:
         raise vlib.Broken("Gen_FlvSched emitted only %d complete behaviours" % s["cases"])
     res = ctx.replay("flvsched", sched)
